@@ -197,7 +197,8 @@ def topologicalSort (kg : KGraph) (dg : Graph) : SortResult :=
   | _ => .panic
 
 structure SameGraph (kg : KGraph) (dg : Graph) : Prop where
-  nodes : dg.nodes = kg.nodes
+  nodes : ∀ x, x ∈ dg.nodes ↔ x ∈ kg.nodes
+  nodup : dg.nodes.Nodup
   succ : ∀ u v, v ∈ dg.succ u ↔ v ∈ kg.succ u
 
 /-- Main graph-level theorem: never panics; `ok` is a complete topological order; `cycle` is real. -/
@@ -206,8 +207,8 @@ theorem topologicalSort_spec (kg : KGraph) (dg : Graph) (wf : KWF kg) (same : Sa
         PredOrdered kg order) ∨
     (∃ c, topologicalSort kg dg = .cycle c ∧ IsCycle dg c) := by
   have hclosed : ∀ u v, v ∈ dg.succ u → v ∈ dg.nodes := by
-    intro u v h; rw [same.nodes]; exact (wf.closed u v ((same.succ u v).mp h)).2
-  have hnd : dg.nodes.Nodup := same.nodes ▸ wf.nodesNodup
+    intro u v h; exact (same.nodes v).mpr (wf.closed u v ((same.succ u v).mp h)).2
+  have hnd : dg.nodes.Nodup := same.nodup
   unfold topologicalSort
   cases hk : kahn kg with
   | ok order => left; exact ⟨order, rfl, kahn_ok_sound kg wf order hk⟩
@@ -226,7 +227,7 @@ theorem topologicalSort_spec (kg : KGraph) (dg : Graph) (wf : KWF kg) (same : Sa
         apply kahn_cyclic_no_rank kg wf hk
         refine ⟨fun u => order.idxOf u, ?_⟩
         intro u v huv
-        have hu : u ∈ order := hcov u (by rw [same.nodes]; exact (wf.closed u v huv).1)
+        have hu : u ∈ order := hcov u ((same.nodes u).mpr (wf.closed u v huv).1)
         exact TopoOK_idx order u v htopo hond hu ((same.succ u v).mpr huv)
 
 #print axioms topologicalSort_spec
